@@ -159,10 +159,10 @@ theorem levelPass_lower {c : Chan} (hv : ValidLen c) {found res : List Int} (hf 
 /-- one block of one channel outside edge-multi, opened up: the channel after `append`, the three
 index lists, the emitted frames, the new hold-off reference and where the trimmed buffer starts -/
 theorem stepChan_anat {ts : TS} {npre nsamp : Int} {sg : Bool} {G : List Nat} {f0 : Int} {c : Chan}
-    {k : Nat} {zt : ZT} {seg : List Nat} {per : Int} {c1 : Chan} {tr : List Int}
+    {k : Nat} {zt : ZT} {seg : List Nat} {t0 per : Int} {c1 : Chan} {tr : List Int}
     (hv : 3 ≤ npre ∧ npre < nsamp) (hem : ts.edgeMulti = false)
     (hk : k ≤ G.length) (hbuf : c.buf = G.drop k) (hcfg : Cfg c ts npre nsamp sg)
-    (h : stepChan zt c seg (f0 + G.length) per sg = some (c1, tr)) :
+    (h : stepChan zt c seg (f0 + G.length) t0 per sg = some (c1, tr)) :
     ∃ (ca : Chan) (e el all : List Int) (k' : Nat),
       ca.buf = (G ++ seg).drop k ∧ ca.first = f0 + k ∧ ca.ts = ts ∧ ca.npre = npre ∧ ca.nsamp = nsamp ∧
       ca.signed = sg ∧ ca.lastTrig = c.lastTrig ∧
@@ -181,7 +181,7 @@ theorem stepChan_anat {ts : TS} {npre nsamp : Int} {sg : Bool} {G : List Nat} {f
   rename_i c2 recs htd
   simp only [Option.some.injEq, Prod.mk.injEq] at h
   obtain ⟨hc1, htr⟩ := h
-  generalize hca : append c seg (f0 + ↑G.length) 0 per sg = ca at htd
+  generalize hca : append c seg (f0 + ↑G.length) t0 per sg = ca at htd
   have ca_buf : ca.buf = (G ++ seg).drop k := by
     rw [← hca]; simp [append, hbuf, List.drop_append_of_le_length hk]
   have ca_first : ca.first = f0 + k := by
@@ -299,10 +299,10 @@ theorem autoPass_on' {c : Chan} (ha : c.ts.auto = true) (hns : 1 ≤ c.nsamp) {f
 set_option maxHeartbeats 1600000 in
 /-- one block preserves the auto invariant -/
 theorem stepChan_auto_inv {ts : TS} {npre nsamp : Int} {sg : Bool} {G : List Nat} {f0 : Int} {c : Chan}
-    {trigs : List Int} {k : Nat} {zt : ZT} {seg : List Nat} {per : Int} {c1 : Chan} {tr : List Int}
+    {trigs : List Int} {k : Nat} {zt : ZT} {seg : List Nat} {t0 per : Int} {c1 : Chan} {tr : List Int}
     (hv : 3 ≤ npre ∧ npre < nsamp) (hem : ts.edgeMulti = false) (hauto : ts.auto = true) (hveto : ts.autoVeto = 0)
     (hinv : AutoInv ts npre nsamp sg G f0 c trigs k)
-    (h : stepChan zt c seg (f0 + G.length) per sg = some (c1, tr)) :
+    (h : stepChan zt c seg (f0 + G.length) t0 per sg = some (c1, tr)) :
     ∃ k', AutoInv ts npre nsamp sg (G ++ seg) f0 c1 (trigs ++ tr) k' := by
   obtain ⟨hk, hbuf, hcfg, hsorted, hlast, hnewest, hdense, hlow, htail⟩ := hinv
   obtain ⟨ca, e, el, all, k', ca_buf, ca_first, ca_ts, ca_npre, ca_nsamp, ca_sg, ca_last, hhi, he, hel, hall, hfo,
@@ -518,17 +518,17 @@ theorem stepChan_auto_inv {ts : TS} {npre nsamp : Int} {sg : Bool} {G : List Nat
     · omega
 
 /-- any number of blocks of any lengths -/
-theorem runChan_auto_inv {ts : TS} {npre nsamp : Int} {sg : Bool} {f0 : Int} {zt : ZT} {per : Int}
+theorem runChan_auto_inv {ts : TS} {npre nsamp : Int} {sg : Bool} {f0 : Int} {zt : ZT} {tp : Nat → Int × Int}
     (hv : 3 ≤ npre ∧ npre < nsamp) (hem : ts.edgeMulti = false) (hauto : ts.auto = true) (hveto : ts.autoVeto = 0) :
-    ∀ (segs : List (List Nat)) (G : List Nat) (c : Chan) (trigs : List Int) (k : Nat) (c' : Chan) (tr : List Int),
+    ∀ (segs : List (List Nat)) (n : Nat) (G : List Nat) (c : Chan) (trigs : List Int) (k : Nat) (c' : Chan) (tr : List Int),
       AutoInv ts npre nsamp sg G f0 c trigs k →
-      runChan zt per sg c (f0 + G.length) segs = some (c', tr) →
+      runChan zt tp sg n c (f0 + G.length) segs = some (c', tr) →
       ∃ k', AutoInv ts npre nsamp sg (G ++ segs.flatten) f0 c' (trigs ++ tr) k'
-  | [], G, c, trigs, k, c', tr, hinv, h => by
+  | [], n, G, c, trigs, k, c', tr, hinv, h => by
     simp only [runChan, Option.some.injEq, Prod.mk.injEq] at h
     obtain ⟨rfl, rfl⟩ := h
     exact ⟨k, by simpa using hinv⟩
-  | seg :: segs, G, c, trigs, k, c', tr, hinv, h => by
+  | seg :: segs, n, G, c, trigs, k, c', tr, hinv, h => by
     unfold runChan at h
     split at h
     · simp at h
@@ -541,7 +541,7 @@ theorem runChan_auto_inv {ts : TS} {npre nsamp : Int} {sg : Bool} {f0 : Int} {zt
     obtain ⟨k1, hinv1⟩ := stepChan_auto_inv hv hem hauto hveto hinv hstep
     have hlen : f0 + (G.length : Int) + (seg.length : Int) = f0 + ((G ++ seg).length : Int) := by simp; omega
     rw [hlen] at hrun
-    obtain ⟨k2, hinv2⟩ := runChan_auto_inv hv hem hauto hveto segs (G ++ seg) c1 (trigs ++ tr1) k1 c2 tr2 hinv1 hrun
+    obtain ⟨k2, hinv2⟩ := runChan_auto_inv hv hem hauto hveto segs (n + 1) (G ++ seg) c1 (trigs ++ tr1) k1 c2 tr2 hinv1 hrun
     refine ⟨k2, ?_⟩
     simpa [List.append_assoc] using hinv2
 
